@@ -125,7 +125,7 @@ Proof.
   - apply (MIR_spawned rs sa _ _ (fun n => mk_req MApply num bad [] 0 w ecb ccb n b) HMa
              (spawned_apply sa num bad noncoro w ecb ccb g)).
     intros n. unfold rq_match; cbn. repeat split; auto; discriminate.
-  - apply (MIR_spawned rs sa _ _ (fun n => mk_req (MMap stars) 0 false els nc default_w ecb ccb n b)
+  - apply (MIR_spawned rs sa _ _ (fun n => mk_req (MMap stars) 0 [] els nc default_w ecb ccb n b)
              HMa (spawned_map sa stars els nc noncoro ecb ccb g)).
     intros n. unfold rq_match; cbn. repeat split; auto; discriminate.
   - subst c.
